@@ -42,3 +42,16 @@ class Piecewise(Transform):
     def forward(self, inputs, context=None):
         outputs = torch.where(inputs > 1, torch.log(torch.clamp(inputs, min=1.0)) + 1, inputs)
         return outputs, inputs.new_zeros(inputs.shape[0])
+
+
+class Running(Transform):
+    def __init__(self, features):
+        super().__init__()
+        self.register_buffer("running_mean", torch.zeros(features))
+
+    def forward(self, inputs, context=None):
+        mean = inputs.mean(0)
+        if self.training:
+            with torch.no_grad():
+                self.running_mean = torch.lerp(self.running_mean, mean, 0.1)
+        return inputs - mean, inputs.new_zeros(inputs.shape[0])
